@@ -45,6 +45,12 @@ def c13_runs(tier, scale):
     return [("c13", [12 * scale, 0], None), ("c13", [12 * scale, 0], None)]
 
 
+def c03_runs(tier, scale):
+    if tier == "thorough":
+        return [("c03", [2500 * scale, 40], None) for _ in range(16)]
+    return [("c03", [400 * scale, 12], None), ("c03", [200 * scale, 20], None)]
+
+
 PROPS = {
     "C01": {
         "lean_modules": ["AvroProofs.C01"],
@@ -122,5 +128,20 @@ PROPS = {
         "trusted_base": ["std::io::Write::{write, write_all} contract is modelled (Sink.lean) and diffed against std on scripted sinks",
                          "the translator's table of write sites (regular expressions over rustfmt-formatted sources)"],
         "assumptions": ["sinks obey the documented Write contract"],
+    },
+    "C03": {
+        "lean_modules": ["AvroProofs.C03"],
+        "theorems": [],
+        "harness": c03_runs,
+        "projection": "okerr",
+        "nontrivial": lambda l: l.count("(ap ") + l.count("(fl)") >= 2 or l.startswith("rdfile"),
+        "rule": "writer histories over {append_value(_ref), unvalidated append, append rejected by validation, append whose encoder fails part-way, "
+                "append_ser ok/failing, extend, extend_from_slice, flush, add_user_metadata (incl. avro.* keys and after the header), reset, "
+                "into_inner + reopen with the original marker (append_to), finish by into_inner or drop} x codecs {null, deflate, snappy, bzip2, xz, "
+                "zstandard} x block sizes {0, 1, around one value, 16000} x generated schemas/values; per op: result + sink length vs Writer.step; "
+                "final file vs model after parsing; model reader vs real Reader; non-trivial = history with >= 2 appends/flushes",
+        "trusted_base": DATUM_TB + ["compression codecs are a parameter of the model (files are compared after the harness decompressed each block with the crate's own codec)",
+                                    "header metadata order (a HashMap) is compared as a set"],
+        "assumptions": ["perfect sink (sink faults are C13)"],
     },
 }
